@@ -54,6 +54,10 @@ impl FairSem {
         if self.closed {
             return Some(Acq::Closed);
         }
+        if n == 0 {
+            // a request for nothing is granted at once (tokio: `acquire_many(0)`)
+            return Some(Acq::Ok);
+        }
         if self.queue.is_empty() && n <= self.avail {
             self.avail -= n;
             return Some(Acq::Ok);
@@ -76,7 +80,7 @@ impl FairSem {
     pub fn try_acquire(&mut self, n: u16) -> Acq {
         if self.closed {
             Acq::Closed
-        } else if self.queue.is_empty() && n <= self.avail {
+        } else if n == 0 || (self.queue.is_empty() && n <= self.avail) {
             self.avail -= n;
             Acq::Ok
         } else {
@@ -193,7 +197,8 @@ pub enum Held {
 }
 
 pub struct LLocals {
-    held: Option<Held>,
+    /// guards / permits held, most recent last
+    held: Vec<Held>,
 }
 
 #[derive(Clone, Debug, PartialEq, Eq, Hash)]
@@ -201,8 +206,8 @@ pub struct LM {
     sem: FairSem,
     /// permits a writer needs
     all: u16,
-    /// permits held by each thread's guard
-    held: Vec<u16>,
+    /// permits held by each thread's guards, most recent last
+    held: Vec<Vec<u16>>,
 }
 
 pub struct LockFam;
@@ -224,8 +229,7 @@ fn try_res<T>(r: Result<T, TryAcquireError>) -> Result<T, LRes> {
 
 impl LockFam {
     fn store(l: &mut LLocals, h: Held) -> LRes {
-        assert!(l.held.is_none(), "ill-formed program: second guard");
-        l.held = Some(h);
+        l.held.push(h);
         LRes::Ok
     }
 
@@ -270,19 +274,20 @@ impl LockFam {
                 Ok(g) => Self::store(l, Held::WO(g)),
                 Err(_) => LRes::WouldBlock,
             },
-            LOp::Downgrade => match l.held.take() {
+            LOp::Downgrade => match l.held.pop() {
                 Some(Held::W(g)) => {
-                    l.held = Some(Held::R(g.downgrade()));
+                    l.held.push(Held::R(g.downgrade()));
                     LRes::Ok
                 }
                 Some(Held::WO(g)) => {
-                    l.held = Some(Held::RO(g.downgrade()));
+                    l.held.push(Held::RO(g.downgrade()));
                     LRes::Ok
                 }
-                other => {
-                    l.held = other;
+                Some(other) => {
+                    l.held.push(other);
                     LRes::Nothing
                 }
+                None => LRes::Nothing,
             },
             LOp::Acquire(How::Try, n) => match try_res(s.try_acquire_many(*n as u32)) {
                 Ok(p) => Self::store(l, Held::P(p)),
@@ -292,14 +297,14 @@ impl LockFam {
                 Ok(p) => Self::store(l, Held::PO(p)),
                 Err(e) => e,
             },
-            LOp::Release => match l.held.take() {
+            LOp::Release => match l.held.pop() {
                 Some(h) => {
                     drop(h);
                     LRes::Unit
                 }
                 None => LRes::Nothing,
             },
-            LOp::Forget => match l.held.take() {
+            LOp::Forget => match l.held.pop() {
                 Some(Held::P(p)) => {
                     p.forget();
                     LRes::Unit
@@ -308,10 +313,11 @@ impl LockFam {
                     p.forget();
                     LRes::Unit
                 }
-                other => {
-                    l.held = other;
+                Some(other) => {
+                    l.held.push(other);
                     LRes::Nothing
                 }
+                None => LRes::Nothing,
             },
             LOp::AddPermits(n) => {
                 s.add_permits(*n as usize);
@@ -352,11 +358,11 @@ impl Family for LockFam {
         }
     }
     fn new_locals(_cfg: &Kind, _t: usize) -> LLocals {
-        LLocals { held: None }
+        LLocals { held: Vec::new() }
     }
     fn end_thread(_o: &LObjs, l: LLocals, _t: usize) {
         // a thread that ends holding a guard never releases it
-        if let Some(h) = l.held {
+        for h in l.held {
             std::mem::forget(h);
         }
     }
@@ -428,7 +434,7 @@ impl Family for LockFam {
         LM {
             sem: FairSem::new(all),
             all,
-            held: vec![0; n],
+            held: vec![Vec::new(); n],
         }
     }
 
@@ -441,29 +447,28 @@ impl Family for LockFam {
             LOp::Write(h) => (*h, n.all),
             LOp::Acquire(h, k) => (*h, *k as u16),
             LOp::Downgrade => {
-                if n.held[t] != n.all || n.all == 1 {
+                if n.held[t].last() != Some(&n.all) || n.all == 1 {
                     return vec![MStep::Done(n, LRes::Nothing)];
                 }
                 let back = n.all - 1;
-                n.held[t] = 1;
+                *n.held[t].last_mut().unwrap() = 1;
                 n.sem.release(back);
                 return vec![MStep::Done(n, LRes::Ok)];
             }
             LOp::Release => {
-                if n.held[t] == 0 {
-                    return vec![MStep::Done(n, LRes::Nothing)];
-                }
-                let back = n.held[t];
-                n.held[t] = 0;
-                n.sem.release(back);
-                return vec![MStep::Done(n, LRes::Unit)];
+                return match n.held[t].pop() {
+                    None => vec![MStep::Done(n, LRes::Nothing)],
+                    Some(back) => {
+                        n.sem.release(back);
+                        vec![MStep::Done(n, LRes::Unit)]
+                    }
+                };
             }
             LOp::Forget => {
-                if n.held[t] == 0 {
-                    return vec![MStep::Done(n, LRes::Nothing)];
-                }
-                n.held[t] = 0;
-                return vec![MStep::Done(n, LRes::Unit)];
+                return match n.held[t].pop() {
+                    None => vec![MStep::Done(n, LRes::Nothing)],
+                    Some(_) => vec![MStep::Done(n, LRes::Unit)],
+                };
             }
             LOp::AddPermits(k) => {
                 n.sem.release(*k as u16);
@@ -487,11 +492,14 @@ impl Family for LockFam {
             Acq::Closed => LRes::Closed,
             Acq::NoPermits => LRes::WouldBlock,
         };
+        if k == 0 && crate::driver::wk(W_ZERO_PANICS) && !n.sem.closed {
+            return vec![MStep::Panic("assertion failed: num_permits > 0".into())];
+        }
         match how {
             How::Try | How::TryOwned => {
                 let r = n.sem.try_acquire(k);
                 if r == Acq::Ok {
-                    n.held[t] = k;
+                    n.held[t].push(k);
                 }
                 vec![MStep::Done(n, conv(r))]
             }
@@ -500,7 +508,7 @@ impl Family for LockFam {
                 match r {
                     Some(a) => {
                         if a == Acq::Ok {
-                            n.held[t] = k;
+                            n.held[t].push(k);
                         }
                         vec![MStep::Done(n, conv(a))]
                     }
@@ -517,7 +525,18 @@ impl Family for LockFam {
     }
 }
 
-impl XFamily for LockFam {}
+/// Recorded finding: `Semaphore::{acquire_many, try_acquire_many}(0)` trips an assertion of the
+/// underlying BatchSemaphore (`num_permits > 0`) instead of succeeding at once.
+pub const W_ZERO_PANICS: u32 = 1;
+
+impl XFamily for LockFam {
+    fn weakenings(cfg: &Kind) -> Vec<(&'static str, u32)> {
+        match cfg {
+            Kind::Sem(_) => vec![("semaphore-request-for-zero-permits-panics", W_ZERO_PANICS)],
+            _ => vec![],
+        }
+    }
+}
 
 // ---------------------------------------------------------------------------------------------
 // Program generation
@@ -533,7 +552,8 @@ fn thread_seqs(alpha: &[LOp], k: usize) -> Vec<Vec<LOp>> {
     fn is_try(o: &LOp) -> bool {
         matches!(o, LOp::Lock(How::Try | How::TryOwned) | LOp::Read(How::Try | How::TryOwned) | LOp::Write(How::Try | How::TryOwned) | LOp::Acquire(How::Try | How::TryOwned, _))
     }
-    // held: 0 = nothing, 1 = something (maybe, after a try), 2 = write guard for sure
+    // held: 0 = nothing, 1 = something (maybe, after a try), 2 = write guard for sure,
+    // 3 = one guard plus the outcome of an attempt made while holding it
     fn rec(alpha: &[LOp], k: usize, cur: &mut Vec<LOp>, held: u8, out: &mut Vec<Vec<LOp>>) {
         if !cur.is_empty() {
             out.push(cur.clone());
@@ -545,9 +565,13 @@ fn thread_seqs(alpha: &[LOp], k: usize) -> Vec<Vec<LOp>> {
             let h2 = match a {
                 x if acquires(x) => {
                     if held != 0 {
-                        continue;
-                    }
-                    if matches!(x, LOp::Write(_)) && !is_try(x) {
+                        // while holding: only a non-waiting attempt, and only once (it may succeed —
+                        // a second read guard, further permits — and is then what Release drops first)
+                        if !is_try(x) || cur.iter().filter(|o| is_try(o)).count() >= 1 || held == 3 {
+                            continue;
+                        }
+                        3
+                    } else if matches!(x, LOp::Write(_)) && !is_try(x) {
                         2
                     } else {
                         1
@@ -557,7 +581,12 @@ fn thread_seqs(alpha: &[LOp], k: usize) -> Vec<Vec<LOp>> {
                     if held == 0 {
                         continue;
                     }
-                    0
+                    // (after an attempt made while holding, something may still be held)
+                    if held == 3 {
+                        1
+                    } else {
+                        0
+                    }
                 }
                 LOp::Downgrade => {
                     if held != 2 {
@@ -734,7 +763,7 @@ pub fn program_set(set: &str) -> Vec<Program<LockFam>> {
                 }
             }
         } else {
-            pairs_and_triples(cfg, &a, &[], 2, 0, 3, 0, &mains, &mut out);
+            pairs_and_triples(cfg, &a, &[], 2, 0, if p == 0 { 2 } else { 3 }, 0, &mains, &mut out);
             if p == 0 {
                 // three waiters: strict arrival order, a large request at the head holds back small ones
                 let a1 = vec![LOp::Acquire(How::Await, 1)];
@@ -750,6 +779,47 @@ pub fn program_set(set: &str) -> Vec<Program<LockFam>> {
                     }
                 }
             }
+            // a request for zero permits
+            if p == 1 {
+                out.push(Program::fork_join(cfg, vec![], vec![vec![LOp::Acquire(How::Await, 0), LOp::Release], vec![LOp::Acquire(How::Await, 1)]]));
+                out.push(Program::fork_join(cfg, vec![], vec![vec![LOp::Acquire(How::Try, 0)], vec![LOp::Acquire(How::Await, 1), LOp::Release]]));
+            }
+            // forgotten permits are gone for good
+            for x in [vec![LOp::Acquire(How::Await, 1), LOp::Forget], vec![LOp::Acquire(How::Try, 1), LOp::Forget], vec![LOp::Acquire(How::Await, 1), LOp::Forget, LOp::Avail]] {
+                for y in [vec![LOp::Acquire(How::Await, 1)], vec![LOp::Acquire(How::Try, 1)], vec![LOp::Avail]] {
+                    out.push(Program::fork_join(cfg, mains[0].clone(), vec![x.clone(), y.clone()]));
+                }
+            }
+        }
+    }
+    // cancellation: a queued request is withdrawn when its task is aborted; those behind it move up
+    {
+        let gg = |ops: &[LOp]| -> Vec<GOp<LOp>> { ops.iter().cloned().map(GOp::Op).collect() };
+        let mut shapes: Vec<(Kind, Vec<LOp>, Vec<LOp>, Vec<LOp>, Vec<LOp>)> = vec![
+            // (kind, holder, victim, follower, main's operations before the abort)
+            (Kind::RwLock, vec![LOp::Read(How::Await)], vec![LOp::Write(How::Await)], vec![LOp::Read(How::Await)], vec![]),
+            (Kind::Sem(0), vec![], vec![LOp::Acquire(How::Await, 2)], vec![LOp::Acquire(How::Await, 1)], vec![LOp::AddPermits(1)]),
+            (Kind::Sem(1), vec![], vec![LOp::Acquire(How::Await, 2)], vec![LOp::Acquire(How::Try, 1)], vec![]),
+            (Kind::Mutex, vec![LOp::Lock(How::Await)], vec![LOp::Lock(How::Await)], vec![LOp::Lock(How::Try)], vec![]),
+        ];
+        if thorough {
+            shapes.push((Kind::Mutex, vec![LOp::Lock(How::Await), LOp::Release], vec![LOp::Lock(How::Await)], vec![LOp::Lock(How::Await)], vec![]));
+            shapes.push((Kind::Mutex, vec![LOp::Lock(How::Await)], vec![LOp::Lock(How::Await), LOp::Release], vec![LOp::Lock(How::Try)], vec![]));
+            shapes.push((Kind::RwLock, vec![LOp::Read(How::Await), LOp::Release], vec![LOp::Write(How::Await)], vec![LOp::Read(How::Await)], vec![]));
+            shapes.push((Kind::Sem(0), vec![LOp::AddPermits(1)], vec![LOp::Acquire(How::Await, 2)], vec![LOp::Acquire(How::Await, 1)], vec![]));
+            shapes.push((Kind::Mutex, vec![LOp::Lock(How::Owned), LOp::Release], vec![LOp::Lock(How::Owned)], vec![LOp::Lock(How::Await), LOp::Release], vec![]));
+            shapes.push((Kind::RwLock, vec![LOp::Write(How::Await), LOp::Downgrade, LOp::Release], vec![LOp::Write(How::Await)], vec![LOp::Read(How::Await)], vec![]));
+            shapes.push((Kind::RwLock2, vec![LOp::Read(How::Await)], vec![LOp::Write(How::Await)], vec![LOp::Read(How::Await), LOp::Release], vec![]));
+            shapes.push((Kind::Sem(0), vec![LOp::AddPermits(1), LOp::AddPermits(1)], vec![LOp::Acquire(How::Await, 2)], vec![LOp::Acquire(How::Await, 1), LOp::Release], vec![]));
+        }
+        for (cfg, holder, victim, follower, mid) in shapes {
+            let mut main = vec![GOp::Spawn(1), GOp::Spawn(2), GOp::Spawn(3)];
+            main.extend(gg(&mid));
+            main.extend([GOp::Abort(2), GOp::Join(2), GOp::Join(1), GOp::Join(3)]);
+            out.push(Program {
+                cfg,
+                threads: vec![main, gg(&holder), gg(&victim), gg(&follower)],
+            });
         }
     }
     out.sort_by_key(|p| p.size());
